@@ -223,6 +223,30 @@ def comparator_harness(op_kind):
                    timeout_ms=3000, retry_unknown=False, ematching_only=True)
 
 
+def comparator_bound_harness():
+    """a comparison that is met AGAIN under bindings that already hold its truth value (one node in two positions of a query, or
+    shared with another query): it reports the bound truth value, whatever flag other evaluations left on the node since"""
+    prefix = "Comparator._evaluate__[bound]"
+
+    def run(vm):
+        ctx = vm.ctx
+        world = EqlWorld(vm)
+        world.known_ids |= {10}
+        node = vm.alloc(vm.loader.cls(SYM, "Comparator"), {"left": None, "right": None, "operation": Opaque("operation"), "_id_": 10,
+                                                          "_is_false_": SBool(ctx.fresh_bool("flag_left_by_another_evaluation")), "_eval_parent_": None, "_conclusion_": None}, tag="Comparator")
+        ctx.assume(bound(world.sigma0, vid(10)))
+        n = 0
+        for res in vm.iterate(vm.call_method(node, "_evaluate__", Bnd(world.sigma0, world))):
+            n += 1
+            b = res.fields["bindings"]
+            from pyvc.ops import zbool
+            ctx.check(f"{prefix}::reports-the-truth-value-bound-for-these-bindings", zbool(res.fields["is_false"]) == z3.Not(truthy(get(world.sigma0, vid(10)))))
+            ctx.check(f"{prefix}::keeps-the-bindings", z3.BoolVal(isinstance(b, Bnd)) if not isinstance(b, Bnd) else b.t == world.sigma0)
+            check_snapshot(vm, node, res, prefix)
+        ctx.check(f"{prefix}::one-result", z3.BoolVal(n == 1))
+    return Harness("cover-Comparator[bound]", run, spec=Spec(), timeout_ms=3000, retry_unknown=False, ematching_only=True)
+
+
 DOM = z3.Function("in_domain", Vs, z3.BoolSort())
 
 
@@ -602,7 +626,7 @@ _stage_a = harnesses
 def harnesses():
     nested = [binary_harness(c, u, below=k) for k in condition_parent_kinds() for c, u in (("AND", True), ("ElseIf", True), ("Union", False))] + \
         [not_harness(below=k) for k in condition_parent_kinds()]
-    return _stage_a()[:-1] + nested + [comparator_harness("generic"), comparator_harness("eq"), variable_harness("operand"), attribute_harness("operand"), attribute_harness("operand", kind="Index"), attribute_harness("operand", kind="Call"),
+    return _stage_a()[:-1] + nested + [comparator_harness("generic"), comparator_harness("eq"), comparator_bound_harness(), variable_harness("operand"), attribute_harness("operand"), attribute_harness("operand", kind="Index"), attribute_harness("operand", kind="Call"),
                               attribute_harness("operand", kind="Call0"), attribute_harness("condition", "AND", kind="Index"), attribute_harness("condition", "Not", kind="Call")] + \
         [variable_harness("condition", k) for k in condition_parent_kinds()] + [attribute_harness("condition", k) for k in condition_parent_kinds()] + \
         [hashed_value_harness(), frame_domain_mapping(),
